@@ -259,3 +259,11 @@ def run(chk):
     X.item_in_child_context(chk, "C17")
     X.replay_items(chk, "C17")
     wrapper_contracts.wrapper_obligations(chk, "C17", want=("C17",))
+    from .handlers import explore
+    from .common import handler_preamble
+    from .c01 import FUNCS
+    from . import hobl
+    for kind in ("step", "wfc"):
+        ex = explore(kind)
+        handler_preamble(chk, ex, FUNCS[kind])
+        hobl.c17_user_logger_gated(chk, ex)
